@@ -381,3 +381,12 @@ def selftest_calls(st, harness, calls, max_steps=100_000_000, throw_code=(-10000
             st.ob(True, 'concrete')
         elif nres['status'] != 'ok' and r == throw_code: st.ob(True, 'concrete')
         else: st.viol('selftest', f'{fn} {str(spec[:3])[:120]}: symir and native differ ({r} vs {nres.get("ret")})')
+
+def pinned_int(m, r, w=32):
+    """value of a symbolic int that the path condition determines uniquely (e.g. a length after the allocation concretised it); None if not unique"""
+    if isinstance(r, int): return r
+    s = z3.Solver(); s.set('timeout', 30000); s.add(*m.pc)
+    if s.check() != z3.sat: return None
+    v = s.model().eval(bve(r, w), model_completion=True).as_long()
+    s.add(bve(r, w) != v)
+    return v if s.check() == z3.unsat else None
